@@ -6,6 +6,7 @@ pub mod c03;
 pub mod c04;
 pub mod c05;
 pub mod c06;
+pub mod c07;
 pub mod c13;
 pub mod c16;
 pub mod c17;
@@ -15,5 +16,5 @@ pub mod c37;
 pub mod c42;
 
 pub fn all() -> Vec<PropDef> {
-    vec![c01::def(), c02::def(), c03::def(), c04::def(), c05::def(), c06::def(), c13::def(), c16::def(), c17::def(), c18::def(), c28::def(), c37::def(), c42::def()]
+    vec![c01::def(), c02::def(), c03::def(), c04::def(), c05::def(), c06::def(), c07::def(), c13::def(), c16::def(), c17::def(), c18::def(), c28::def(), c37::def(), c42::def()]
 }
